@@ -43,6 +43,16 @@ PY_FILES = [
     ".git/hooks/h.py",
     "lib/site-packages/sp.py",
     "other/a.py",
+    # siblings whose names extend a directory named by a pattern ('-' and '.' sort differently as path components and as
+    # characters): they must not be confused with the directory itself
+    "build-tools/gen.py",
+    "build.py",
+    "tests.old/legacy.py",
+    "tests-extra/t.py",
+    "src-gen/schema.py",
+    "src.py",
+    "venv.py",
+    "dist.bak/d.py",
 ]
 OTHER_FILES = {"notes.txt": SRC, "src/a.pyi": SRC, "src/data.json": b'{"k": 1}\n', "src/noext": SRC}
 LINKS = {
